@@ -17,10 +17,15 @@ Definition key_default_depends : str :=
 Definition meta_value (m : option (list Z)) (key : str) : option str :=
   match m with
   | None => None
-  | Some block => match MetaModel.lookup block key with
+  | Some block =>
+      (* Port::meta() skips the ':' in front of the first title *)
+      match MetaModel.meta block with
+      | Some p => match MetaModel.lookup p key with
                   | Some v => v
                   | None => None
                   end
+      | None => None
+      end
   end.
 
 Definition apropos_of_tree (root : list NameModel.port) (path : str) : option pmeta :=
